@@ -72,11 +72,20 @@ func (d *filesDir) ReadDir(n int) ([]fs.DirEntry, error) {
 		if len(names) > n {
 			names = names[:n]
 		}
-		d.n += len(names)
+	} else if d.n < len(names) {
+		names = names[d.n:]
+	} else {
+		names = nil
 	}
+	d.n += len(names)
 	entries := make([]fs.DirEntry, len(names))
 	for i, name := range names {
-		entries[i] = &filesDirEntry{filesFileInfo{name: name}}
+		if data, ok := d.fsys[name]; ok {
+			entries[i] = &filesDirEntry{filesFileInfo{name: name, data: data}}
+		} else {
+			// An implied directory.
+			entries[i] = &filesDirEntry{filesFileInfo{name: name, mode: fs.ModeDir}}
+		}
 	}
 	return entries, nil
 }
